@@ -166,8 +166,13 @@ def main(ctx):
         if "cls" not in case:                     # a recorded event: let TLC judge it again
             tr = ctx.path("trace.ndjson")
             vlib.write_ndjson(tr, [case])
-            mod = "TextTablesTrace" if case.get("op") in ("csv", "ecopcr") else "ObiHeaderTrace"
-            events, rejects = ctx.trace_validate(mod, mod + ".cfg", tr)
+            if case.get("op") in ("csv", "ecopcr", "csvcmd", "ecocmd"):
+                events, rejects = ctx.trace_validate("TextTablesTrace", "TextTablesTrace.cfg", tr)
+                for r in rejects:
+                    if r["why"] != "undecided":
+                        ctx.violation("X03.tables.%s.%s" % (case["op"], r["why"]), case["op"], "rejected by TextTablesTrace (%s)" % r["why"], case)
+                return ctx.finish()
+            events, rejects = ctx.trace_validate("ObiHeaderTrace", "ObiHeaderTrace.cfg", tr)
             report_rejects(ctx, events, rejects, {})
             if case.get("op") == "cmd":
                 print("[check] a command event is re-judged as recorded; re-run the tier with VERIF_SEED=%s to re-record it" % blob.get("seed"))
@@ -175,7 +180,7 @@ def main(ctx):
         cases = ctx.path("cases.ndjson")
         vlib.write_ndjson(cases, [case])
         res = ctx.path("res.ndjson")
-        ctx.harness(["replay", "X03", "--cases", cases, "--out", res])
+        ctx.harness(["replay", "X03", "--cases", cases, "--out", res] + (["--opt", "tables=1"] if case.get("op") in ("csv", "ecopcr") else []))
         ctx.add_results(res)
         return ctx.finish()
 
@@ -265,29 +270,131 @@ def main(ctx):
                            "one CSV or ecoPCR file")
 
 
+def fastx_records(path, fastq):
+    """records of a FASTA / FASTQ file written with JSON headers: id, annotations, definition, nucleotides, scores"""
+    lines = open(path, "rb").read().decode("utf8").split("\n")
+    if lines and lines[-1] == "":
+        lines = lines[:-1]
+    recs = []
+    if fastq:
+        for i in range(0, len(lines), 4):
+            recs.append((lines[i][1:], lines[i + 1], [ord(c) - 33 for c in lines[i + 3]]))
+    else:
+        for l in lines:
+            if l.startswith(">"):
+                recs.append([l[1:], "", []])
+            else:
+                recs[-1][1] += l
+    out = []
+    for title, seq, qual in recs:
+        k = 0
+        while k < len(title) and title[k] not in " \t":
+            k += 1
+        ents, d = json_title(title[k:].lstrip(" \t"))
+        out.append({"id": title[:k], "seq": seq, "qual": qual, "def": d,
+                    "ents": [{"k": e["k"], "t": e["t"], "v": e["v"]} for e in ents]})
+    return out
+
+
+def table_command_events(ctx, thorough):
+    import csv as pycsv
+    import io
+    bindir = ctx.build_cmds(["obiconvert", "obicsv"])
+    ocsv, conv = os.path.join(bindir, "obicsv"), os.path.join(bindir, "obiconvert")
+    d = ctx.path("x03files")
+    man = ctx.path("x03files.ndjson")
+    if not os.path.exists(man):
+        ctx.harness(["record", "X03", "--out", man, "--n", 8, "--opt", "dir=" + d], timeout=300)
+    files = [json.loads(x) for x in open(man) if x.strip()]
+    jobs, metas = [], []
+    for k, f in enumerate(files):
+        recs = fastx_records(f["file"], bool(f["fastq"]))
+        keys = sorted({e["k"] for r in recs for e in r["ents"] if e["k"] not in ("count", "taxid", "scientific_name")})[:3] + ["zz"]
+        for v in range(4 if thorough else 2):
+            n = k * 4 + v
+            o = {"id": True, "count": n % 2 == 0, "taxon": False, "definition": n % 3 == 0, "sequence": n % 4 != 3,
+                 "quality": (k + v) % 2 == 1, "keys": keys}
+            na = "NA" if v % 2 == 0 else "MISSING"
+            argv = [ocsv, "--max-cpu", "2", "-i"] + (["--count"] if o["count"] else []) + (["-d"] if o["definition"] else []) + \
+                (["-s"] if o["sequence"] else []) + (["-q"] if o["quality"] else []) + [x for key in keys for x in ("-k", key)] + \
+                (["--na-value", na] if na != "NA" else []) + [f["file"]]
+            jobs.append({"argv": argv})
+            metas.append({"op": "csvcmd", "argv": " ".join(["obicsv"] + argv[1:-1] + [os.path.basename(f["file"])]), "opts": o, "na": na, "recs": recs})
+    res = ctx.run_many(jobs, timeout=120)
+    evs = []
+    for m, r in zip(metas, res):
+        m["rc"] = abs(r["rc"])
+        m["hung"] = 1 if r["timeout"] else 0
+        rows = list(pycsv.reader(io.StringIO(r["out"].decode("utf8", "replace")))) if r["rc"] == 0 else []
+        m["header"] = rows[0] if rows else []
+        m["rows"] = rows[1:]
+        m["err"] = r["err"][-300:] if r["rc"] else ""
+        evs.append(m)
+    # ecoPCR files given to a command: as a file with --ecopcr, on stdin with --ecopcr, as a file whose format is guessed
+    tt = [c for c in vlib.read_cases(ctx.path("tt_cases.ndjson")) if c["op"] == "ecopcr" and "/v2/" in c["cls"]][:2 if not thorough else 6]
+    jobs, metas = [], []
+    for k, c in enumerate(tt):
+        p = ctx.path("cmd%d.ecopcr" % k)
+        open(p, "w").write(c["text"])
+        for how, argv, stdin in (("file", [conv, "--ecopcr", p], None), ("stdin", [conv, "--ecopcr"], p), ("guessed", [conv, p], None)):
+            jobs.append({"argv": argv, "stdin": stdin, "timeout": 10})
+            metas.append({"op": "ecocmd", "how": how, "argv": "obiconvert " + " ".join(os.path.basename(a) for a in argv[1:]) + (" < file" if stdin else ""),
+                          "nrows": len(c["recs"])})
+    res = ctx.run_many(jobs, timeout=10)
+    for m, r in zip(metas, res):
+        m["rc"] = abs(r["rc"])
+        m["hung"] = 1 if r["timeout"] else 0
+        m["nout"] = sum(1 for l in r["out"].split(b"\n") if l.startswith(b">"))
+        m["err"] = "\n".join(l for l in r["err"].splitlines() if "level=info" not in l)[:400]
+        evs.append(m)
+    return evs
+
+
 def tables(ctx, thorough):
     """part (c): see spec/L2_io/TextTables.tla"""
-    if not os.path.exists(os.path.join(vlib.VERIF, "spec", "L2_io", "TextTables.tla")):
-        return
     cases = ctx.path("tt_cases.ndjson")
-    ctx.tlc_model("TextTables", "TextTables_thorough.cfg" if thorough else "TextTables_quick.cfg", env={"VERIF_CASES": cases}, timeout=1500)
+    ctx.tlc_model("TextTablesMC", "TextTablesMC_thorough.cfg" if thorough else "TextTablesMC_quick.cfg", env={"VERIF_CASES": cases}, timeout=1500)
     res = ctx.path("tt_res.ndjson")
     ctx.harness(["replay", "X03", "--cases", cases, "--out", res, "--opt", "tables=1"], timeout=1500)
-    ctx.add_results(res)
+    summ = ctx.add_results(res)
+    if not ctx.violations and not summ.get("aborted_after_failures"):
+        for need in ("csv/int/representable/scores/write", "csv/str/changes/noqualcol/read", "csv/float/representable/noscores/read",
+                     "csv/bool/representable/scores/hash-id/read", "ecopcr/v2/superkingdom/rows4", "ecopcr/v1/order/rows3"):
+            ctx.expect_vacuity("class " + need, ctx.classes.get(need, 0))
     trace = ctx.path("tt_trace.ndjson")
-    ctx.harness(["record", "X03", "--out", trace, "--n", 3000 if thorough else 300, "--opt", "tables=1"], timeout=900)
+    ctx.harness(["record", "X03", "--out", trace, "--n", 3000 if thorough else 300, "--opt", "tables=1"], timeout=1500)
+    cmd = table_command_events(ctx, thorough)
+    with open(trace, "a") as f:
+        for e in cmd:
+            f.write(json.dumps(e, separators=(",", ":")) + "\n")
     events, rejects = ctx.trace_validate("TextTablesTrace", "TextTablesTrace.cfg", trace, timeout=1500)
+    und = 0
     for r in rejects:
         ev = events[r["l"] - 1]
         why = r["why"]
-        if why.startswith("known"):
-            ctx.violation("X03.tables.known_departure", why[5:], "rejected by TextTablesTrace (%s): %s" % (why, json.dumps(ev)[:900]), ev)
+        op = ev["op"]
+        brief = {k: ev[k] for k in ev if k not in ("recs", "rows", "text")} if op in ("csvcmd", "ecopcr") else ev
+        what = json.dumps(brief, ensure_ascii=False)[:1100]
+        if why == "undecided":
+            und += 1
+        elif why.startswith("known"):
+            parts = [p for p in why[5:].split("+") if p]
+            if "crash" in parts:
+                ctx.violation("X03.ecopcr.crash_at_end_of_input", op, "rejected by TextTablesTrace (%s): %s" % (why, what), ev)
+                parts.remove("crash")
+            if parts:
+                ctx.violation("X03.tables.known_departure", "+" + "+".join(parts), "rejected by TextTablesTrace (%s): %s" % (why, what), ev)
+        elif op == "ecocmd" and why == "bad:cmd-hung":
+            ctx.violation("X03.ecopcr.command_never_ends", ev["how"], "%s does not end (10 s) on a %d-line ecoPCR file" % (ev["argv"], ev["nrows"]), ev)
+        elif op == "ecocmd" and why == "bad:cmd-exit-status" and "nil pointer dereference" in ev.get("err", "") and "ReadEcoPCR" in ev.get("err", ""):
+            ctx.violation("X03.ecopcr.crash_at_end_of_input", op + "/" + ev["how"], "%s: exit status %d, %s" % (ev["argv"], ev["rc"], ev["err"][:300]), ev)
         else:
-            ctx.violation("X03.tables.%s.%s" % (ev["op"], why[4:] if why.startswith("bad:") else why), ev["op"],
-                          "rejected by TextTablesTrace (%s): %s" % (why, json.dumps(ev)[:900]), ev)
+            ctx.violation("X03.tables.%s.%s" % (op, why[4:] if why.startswith("bad:") else why), op + ("/" + ev["how"] if op == "ecocmd" else ""),
+                          "rejected by TextTablesTrace (%s): %s" % (why, what), ev)
     kinds = {}
     for e in events:
         kinds[e["op"]] = kinds.get(e["op"], 0) + 1
-    for need in ("csv", "ecopcr"):
+    for need in ("csv", "ecopcr", "csvcmd", "ecocmd"):
         ctx.expect_vacuity("table trace events " + need, kinds.get(need, 0))
     ctx.extra["table_trace_events"] = kinds
+    ctx.extra["table_trace_events_outside_the_decided_domain"] = und
